@@ -845,7 +845,7 @@ def decide(pid, tier, seed, replay, t0):
             a_[1] += t_
         cheap = {k_ for k_, (n_, t_) in by_kind.items() if t_ / n_ < (0.01 if tier == "quick" else 0.05)}
         seen, t_fill, r_ = set(lines), time.time(), 0
-        limit = 25.0 if tier == "quick" else 900.0
+        limit = (25.0 if time.time() - t0 < 100 else 10.0) if tier == "quick" else 900.0      # (quick runs stay short)
         n_fill = 0
         # corner requests of the basic kinds the property's source files deal with, asked now and again at the end
         kinds = _common.soak_kinds(pid)
